@@ -69,36 +69,36 @@ def compact (s : State) : State :=
 
 def fuelOf (s : State) : Nat := 20000 + 40 * (s.rx.foldl (fun a f => a + f.data.length + 4) 0)
 
-def settleC (s : State) : State × Bool :=
-  let (s', ok) := settle (fuelOf s) s
+def settleC (prio : List Key) (s : State) : State × Bool :=
+  let (s', ok) := settle prio (fuelOf s) s
   (compact s', ok)
 
 def toWire (f : OFrame) : WFrame := ⟨mkHdr f.kind f.conn f.id, f.data⟩
 
 /-- pair mode: settle both sides, forward what each flushed, until nothing moves -/
-def settlePair : Nat → Side → Side → Side × Side × Bool
+def settlePair (pa pb : List Key) : Nat → Side → Side → Side × Side × Bool
   | 0, a, b => (a, b, false)
   | fuel + 1, a, b =>
-    let (sa, oka) := settleC a.s
-    let (sb, okb) := settleC b.s
+    let (sa, oka) := settleC pa a.s
+    let (sb, okb) := settleC pb b.s
     let fa := (sa.out.take sa.flushed).drop a.fwdOut
     let fb := (sb.out.take sb.flushed).drop b.fwdOut
     if fa.isEmpty && fb.isEmpty then ({ a with s := sa }, { b with s := sb }, oka && okb) else
     let sb' := fa.foldl (fun s f => { s with rx := s.rx ++ [toWire f] }) sb
     let sa' := fb.foldl (fun s f => { s with rx := s.rx ++ [toWire f] }) sa
-    settlePair fuel { a with s := sa', fwdOut := a.fwdOut + fa.length } { b with s := sb', fwdOut := b.fwdOut + fb.length }
+    settlePair pa pb fuel { a with s := sa', fwdOut := a.fwdOut + fa.length } { b with s := sb', fwdOut := b.fwdOut + fb.length }
 
-def settleSess (ss : Sess) : Sess :=
+def settleSess (ss : Sess) (pa : List Key := []) (pb : List Key := []) : Sess :=
   if ss.raw || ss.sides.size < 2 then
     match ss.sides[0]? with
     | none => ss
     | some a =>
-      let (s', ok) := settleC a.s
+      let (s', ok) := settleC pa a.s
       { ss with sides := ss.sides.set! 0 { a with s := s' }, diverged := ss.diverged || !ok }
   else
     match ss.sides[0]?, ss.sides[1]? with
     | some a0, some b0 =>
-      let (a, b, ok) := settlePair 100000 a0 b0
+      let (a, b, ok) := settlePair pa pb 100000 a0 b0
       { ss with sides := #[a, b], diverged := ss.diverged || !ok }
     | _, _ => ss
 
@@ -155,6 +155,16 @@ def observe (ss : Sess) (res : String) (extra : List (String × Json)) : Sess ×
 
 def capsJ (c : Caps) : Json := Json.arr (c.map fun p => Json.arr #[natJ p.1, natJ p.2]).toArray
 
+/-- scheduling advice of an op: `[[side, conn, id], ...]`, the streams in the order in which the real runtime let them
+through `StreamQueue::push` -/
+def advOf (j : Json) (side : Nat) : List Key :=
+  ((getArr j "adv").getD #[]).toList.filterMap fun e =>
+    match e.getArr? with
+    | .ok a =>
+      let nat (i : Nat) : Nat := (a[i]? >>= (·.getNat?.toOption)).getD 0
+      if nat 0 == side then some ⟨nat 1 == 1, nat 2⟩ else none
+    | .error _ => none
+
 def doInit (j : Json) : Sess × Json :=
   let raw := getStr j "mode" == some "raw"
   let acc := capMap (capsOf j "acc")
@@ -164,7 +174,7 @@ def doInit (j : Json) : Sess × Json :=
   let cfg := cfgOf j "cfg"
   if raw then
     let a : Side := { s := State.init cfg acc con pacc pcon }
-    let ss := settleSess { raw := true, sides := #[a] }
+    let ss := settleSess { raw := true, sides := #[a] } (advOf j 0) (advOf j 1)
     observe ss "ok" [("verify", Json.bool (muxVerify cfg acc con)), ("hs", Json.arr #[capsJ acc, capsJ con])]
   else
     let pacc := capMap pacc
@@ -172,7 +182,7 @@ def doInit (j : Json) : Sess × Json :=
     let pcfg := cfgOf j "pcfg"
     let a : Side := { s := State.init cfg acc con pacc pcon }
     let b : Side := { s := State.init pcfg pacc pcon acc con }
-    let ss := settleSess { raw := false, sides := #[a, b] }
+    let ss := settleSess { raw := false, sides := #[a, b] } (advOf j 0) (advOf j 1)
     observe ss "ok" [("verify", Json.bool (muxVerify cfg acc con)), ("verifyB", Json.bool (muxVerify pcfg pacc pcon)),
                      ("hs", Json.arr #[capsJ acc, capsJ con]), ("hsB", Json.arr #[capsJ pacc, capsJ pcon])]
 
@@ -218,9 +228,9 @@ def doOp (ss : Sess) (j : Json) : Sess × Json :=
     let s := sd.s
     let slot := (getNat j "slot").getD 0
     let fin (s' : State) (res : String) : Sess × Json :=
-      observe (settleSess { ss with sides := ss.sides.set! si { sd with s := s' } }) res []
+      observe (settleSess { ss with sides := ss.sides.set! si { sd with s := s' } } (advOf j 0) (advOf j 1)) res []
     let finW (s' : State) : Sess × Json :=
-      let ss' := settleSess { ss with sides := ss.sides.set! si { sd with s := s' } }
+      let ss' := settleSess { ss with sides := ss.sides.set! si { sd with s := s' } } (advOf j 0) (advOf j 1)
       let r := match ss'.sides[si]? with | some sd' => wroteRes sd' slot | none => "pend"
       observe ss' r []
     match op with
